@@ -2,7 +2,8 @@
    wrote and prints the model's observations in the same canonical text.
    modes:  scan   <id> <10 option bits> <hex input>
            line   <id> <hex text> <pos>
-           runes  <id> <hex bytes>                                         *)
+           runes  <id> <hex bytes>
+           directive <id> <10 option bits> <hex name> <hex input>           *)
 open Model
 
 let rec pos_of_int i = if i = 1 then XH else if i land 1 = 0 then XO (pos_of_int (i lsr 1)) else XI (pos_of_int (i lsr 1))
@@ -73,6 +74,18 @@ let process mode oc line =
       let (r, w) = decode_rune b in
       Printf.fprintf oc "%s r=%d w=%d tl=%d tr=%d\n" id (int_of_n r) (int_of_z w)
         (Stdlib.List.length (trim_left_space b)) (Stdlib.List.length (trim_right_space b))
+    | "directive" ->
+      let o = opts_of_bits toks.(1) in
+      let nm = bytes_of_string (unhex toks.(2)) in
+      let inp = bytes_of_string (unhex toks.(3)) in
+      Printf.fprintf oc "%s %s\n" id
+        (match scan_directives o nm inp with
+         | Ok l -> "ok " ^ string_of_int (Stdlib.List.length l) ^
+                   String.concat "" (Stdlib.List.map (fun (p, ds) ->
+                     Printf.sprintf " %d:%s" (int_of_z p) (match ds with [] -> "-" | _ -> String.concat "," (Stdlib.List.map hexb ds))) l)
+         | Err e -> Printf.sprintf "err %s %d %d" (kind_name e.e_kind) (int_of_z e.e_line) (int_of_z e.e_col)
+         | Panic -> "panic"
+         | OutOfFuel -> "outoffuel")
     | m -> failwith ("mode " ^ m)
   end
 
